@@ -319,6 +319,9 @@ class Agent(dbus.service.Object):
         :param port: The port number to connect to.
         :return: The new contact object path.
         '''
+        if self._in_shutdown:
+            # nobody would ever terminate this contact
+            raise dbus.DBusException('Agent is shutting down')
         addrobj = AddressObject(address)
         conv = Conversation(
             family=addrobj.family,
